@@ -10,10 +10,23 @@ QR dump  : K head tail hist reorth min_eig max_eig | fwd pairs | rev pairs | rin
 AA dump  : init n m_AA | G columns (ring order + tail) | r_last | QR dump
 acomp out: x_aa | γ_LS[0..K) | AA dump
 
-Monitors work from their *own* record of the column window A (built from the op lines), never
-from the model.  QR involves sqrt / division, so there is no exact regime: tolerances are relative
-1e-10 on well-conditioned windows, loosened or skipped on nearly dependent ones (counted in the
-evidence).  The affine-combination identity of Anderson is recomputed in exact rationals.
+Monitors (AUDIT-2 #2 / #13).  Independent of the code under test: the column window A (own record of the op
+lines), b, the thresholds (tol of the op line; Anderson: min_div_fac × OUR max |pivot| of the printed current R),
+the condition number / exact rank of A (numpy SVD of A; exact rational elimination).  From the real code, because
+the property is about them: Q, R, x, γ_LS, get_min_eig / get_max_eig.  Arithmetic is binary64 numpy with stated,
+condition-number-free bounds (ORTH_BOUND, REPR_BOUND, ROW_BOUND, NE_BOUND = 1e-10 / 1e-9; observed maxima are in
+the evidence); exact rationals are used for the rank, the Anderson affine combination and, on nearly dependent
+windows (cond > 1e5), the normal-equation residual.  No monitor is gated by a condition estimate; the nearly
+dependent class is reported under its own counters.  Exemptions (all counted): non-finite INPUT
+(`exempt_nonfinite_input`, never generated here); negative threshold on a zero pivot (`exempt_negative_tol_zero_pivot`,
+hypothesis `0 ≤ tol ∨ PivNZ` of history_solve_least_squares).  Skipped pivot on a nonzero column of Q: the deflated
+statement (rows of the normal equations) is what is checked (`ls_deflated_statement_only`,
+`zero_pivot_on_nonzero_column_of_Q`).  "R upper triangular": get_R() is a triangularView by construction and the raw
+storage below the diagonal is stale by design, so nothing is tested there; what is tested is Q·get_R() = A.
+get_min_eig / get_max_eig are compared with the extreme diagonal entries of the printed R after every operation.
+REQUIRED lists the classes every run must exercise (else the tie is reported broken).  η and the
+reorthogonalisation test are pinned only by the monitor on the class `neardep_angle` (one MGS pass leaves
+‖QᵀQ − I‖ ≈ ε/angle ≥ 1e-8 > ORTH_BOUND; the theorems hold for any number of passes in exact arithmetic).
 
 Mutants tried on a private copy (VERIF_REPO=/tmp/repo_c10), all reported (exit 1):
   r_succ `<`→`<=`; r_pred `m()-1`→`m()`; remove: `r_idx_start = r_succ(r_idx_end)` / start not advanced;
@@ -31,7 +44,12 @@ Mutants tried on a private copy (VERIF_REPO=/tmp/repo_c10), all reported (exit 1
       -> C10Add / C10Solve proofs (regenerated lmqrAddNormalize / lmqrSolveSkip) or shape check + NaN / zero-pivot /
          ‖QR−A‖ / ‖QᵀQ−I‖ / row monitors
 
-The first ops of every run are ZERO_SCALE_OPS (scale_R(0), then solve with tol > 0 and tol = 0).
+  (audit round 2, on the repaired eig bounds, exit 1 each) η = 0 / reorthogonalisation loop disabled -> ORTH_BOUND on
+  neardep_angle; update_eig_bounds dropped from remove_column / scale_R, `max`→`min` or R(0, r_idx) in its loop, start
+  value +inf, add_column `max`→`min`, threshold with get_min_eig() -> shape check / C10Eig proofs + eig / γ_LS monitors
+
+The first ops of every run are ZERO_SCALE_OPS (scale_R(0); solves with tol > 0, = 0, < 0; dependent column followed by
+remove_column) and STALE_EIG_OPS (Anderson on residuals scaled 10^-k; largest pivot leaving a bare QR; negative scale).
 """
 import math
 import os
@@ -377,7 +395,7 @@ def finite(xs):
 
 ORTH_BOUND = 1e-10          # ‖QᵀQ − diag(alive)‖_max, every window (two MGS passes give ~1e-16; one pass ε/angle)
 REPR_BOUND = 1e-10          # ‖(QR − A)[:, k]‖ ≤ REPR_BOUND·‖A[:, k]‖
-ROW_BOUND = 1e-10           # |q_rᵀ(A x − b)| ≤ ROW_BOUND·(|q_r|ᵀ(|A||x| + |b|))
+ROW_BOUND = 1e-10           # |q_rᵀ(A x − b)| ≤ ROW_BOUND·‖q_r‖·(‖|A||x|‖ + ‖b‖)
 NE_BOUND = 1e-9             # ‖Aᵀ(Ax − b)‖ ≤ NE_BOUND·‖A‖_F(‖A‖_F‖x‖ + ‖b‖): backward-error form, no condition number
 ILL = 1e5                   # class boundary only (reporting / exact-rational evaluation), never an exemption
 
@@ -503,7 +521,7 @@ def check_factorisation(d, win, n, st, label=''):
     return None
 
 
-def normal_equations(win, b, x, cond, what):
+def normal_equations(win, b, x, cond, what, unique=True):
     """x minimises ‖A x − b‖ ⇔ Aᵀ(A x − b) = 0.  Backward-error bound without the condition number; evaluated in
     exact rationals on nearly dependent windows (binary64 evaluation cancels there)."""
     K = len(win)
@@ -526,7 +544,7 @@ def normal_equations(win, b, x, cond, what):
     if not ne <= NE_BOUND * scale + 1e-290:
         return (f'{what}: normal-equation residual ‖Aᵀ(Ax − b)‖ = {ne:.3e} > {NE_BOUND}·‖A‖(‖A‖‖x‖+‖b‖) = '
                 f'{NE_BOUND * scale:.3e} (window condition number {cond:.3g}): not a least-squares minimiser')
-    if cond <= ILL:
+    if cond <= ILL and unique:
         xl, *_ = np.linalg.lstsq(A, bb, rcond=None)
         a2 = np.linalg.norm(A, 2)
         bump('ls_compared_with_lstsq')
@@ -548,13 +566,13 @@ def solve_statement(d, n, win, b, x, skipped, what):
         if x[r] != 0.0:
             return f'{what}: pivot |R[{r},{r}]| = {abs(R[r, r])!r} is not above the threshold but x[{r}] = {x[r]!r} ≠ 0', []
     res = A @ xs - bb
-    mag_vec = np.abs(A) @ np.abs(xs) + np.abs(bb)
+    mag_all = np.linalg.norm(np.abs(A) @ np.abs(xs)) + np.linalg.norm(bb)
     failed = []
     for r in range(K):
         if r in skipped:
             continue
         lhs = float(Q[:, r] @ res)
-        mag = float(np.abs(Q[:, r]) @ mag_vec)
+        mag = float(np.linalg.norm(Q[:, r]) * mag_all)
         bump('row_equations_checked')
         if not abs(lhs) <= ROW_BOUND * mag + 1e-290:
             failed.append((r, lhs, mag))
@@ -569,7 +587,8 @@ def solve_statement(d, n, win, b, x, skipped, what):
     if dead and len(skipped) < K:
         keep = [r for r in range(K) if r not in skipped]
         bump('ls_only_zero_columns_skipped')
-        return normal_equations(win, b, x, window_cond(A[:, keep]), what + ' (only zero columns of Q skipped)'), []
+        return normal_equations(win, b, x, window_cond(A[:, keep]), what + ' (only zero columns of Q skipped)',
+                                unique=False), []
     # deflated statement only: the rows above are all of it
     bump('ls_deflated_statement_only')
     if any(R[r, r] == 0.0 and Q[:, r].any() for r in skipped):
@@ -916,8 +935,9 @@ def main(argv):
             'makeGivens (read off Eigen/src/Jacobi/Jacobi.h; bit-exact agreement with the real code on every run)',
             'std::sqrt enters the theorems only through SqrtLaw (sqrt a · sqrt a = a for a ≥ 0) and SqrtNonneg '
             '(sqrt a ≥ 0)',
-            'theorems are over ordered fields (real-number semantics); IEEE rounding, conditioning and the '
-            'benefit of reorthogonalisation are not proved — monitored (‖QR−A‖, ‖QᵀQ−I‖, normal equations)',
+            'theorems are over ordered fields (real-number semantics); IEEE rounding, conditioning, η and the '
+            'reorthogonalisation test are not proved — monitored in binary64 with condition-free bounds on every '
+            'window (‖QR−A‖, ‖QᵀQ−diag(alive)‖, normal equations; class neardep_angle separates one MGS pass from two)',
         ],
         assumptions=['Eigen reductions / rotations are evaluated coefficient by coefficient in source order '
                      'under -O1 -ffp-contract=off -DEIGEN_DONT_VECTORIZE (bit-exact correspondence confirms '
